@@ -548,7 +548,17 @@ class Generator:
         args = [prep, self.lit(conn)]
         kw = []
         if mq is not None:
-            kw.append(["measured_qubits", self.lit(Lt.lst(mq))])
+            form = r.random()
+            lo = min(mq)
+            if form < 0.15 and sorted(mq) == list(range(lo, lo + len(mq))):
+                mqv = {"t": "range", "v": [lo, lo + len(mq), 1]}
+            elif form < 0.4:
+                mqv = Lt.tup(mq)
+            elif form < 0.5:
+                mqv = Lt.lst([Lt.npint(q) for q in mq])
+            else:
+                mqv = Lt.lst(mq)
+            kw.append(["measured_qubits", self.lit(mqv)])
         return self._call("tomo.full_state_tomography_circuits", args, kw)
 
     def _fam_conn(self, ex, pre):
